@@ -3,7 +3,7 @@ import asyncio
 import logging
 import random
 
-from harness.legs import cfg_text, gen_traces, leg_m, leg_mutant, leg_r, leg_t_gen
+from harness.legs import cfg_text, gen_traces, leg_apalache, leg_m, leg_mutant, leg_r, leg_t_gen
 from harness.vloop import VClock, VLoop
 
 SPEC = "Retry"
@@ -12,7 +12,11 @@ MANIFEST = dict(
          "(limit x catching form x delay form x sync/async) is chosen in Init. TLC checks the history-based statement "
          "of C14 (ExactAttempts, NoEarlyStop, TrueLastOutcome, NeverRetryBase, PausesRight) on every behaviour; every "
          "edge of the graph (= every outcome sequence for every configuration) is replayed into the real retry "
-         "wrapper with a scripted function, exception identity and pauses (virtual clock / patched sleep) compared.",
+         "wrapper with a scripted function, exception identity and pauses (virtual clock / patched sleep) compared; "
+         "the caller may be cancelled during a pause. Random scripts for limits up to 9 are validated by a generated "
+         "trace module; the counting core RetryCore.tla is proved for EVERY limit by Apalache (inductive invariant "
+         "=> CallsBound) and Retry.tla is checked by TLC to refine it; the decorator stacked with the others is "
+         "checked on Stack.tla.",
     technique="TLA+ spec + TLC exhaustive model checking; edge-complete graph replay into the implementation",
     design="5/C14")
 INVS = ["TypeOK", "CallsBound", "ExactAttempts", "NoEarlyStop", "TrueLastOutcome", "CancelEndsCall", "NeverRetryBase", "PausesRight"]
@@ -216,8 +220,13 @@ def run(rep, work, tier, seed):
     lim = 2 if tier == "quick" else 4
     c = dict(MaxLimit=lim, Bug="none")
     rep.extra["constants"] = c
-    leg_m(rep, work, SPEC, f"mc_{tier}", cfg_text(dict(MaxLimit=lim + 1, Bug="none"), invariants=INVS),
+    leg_m(rep, work, SPEC, f"mc_{tier}",
+          cfg_text(dict(MaxLimit=lim + 1, Bug="none"), spec="Spec", invariants=INVS, properties=["RefinesCore"]),
           expect_actions=["Attempt", "CancelInPause"])
+    # leg A: the counting core (RetryCore.tla) for EVERY limit - Init => IndInv, IndInv /\ Next => IndInv',
+    # IndInv => CallsBound - by Apalache; TLC (above, RefinesCore) checks that Retry.tla refines that core
+    leg_apalache(rep, work, "RetryCore", [("base", "Init", "IndInv", 0), ("step", "IndInv", "IndInv", 1),
+                                          ("goal", "IndInv", "CallsBound", 0)])
     if tier == "thorough":
         for bug, inv in (("off_by_one", ["CallsBound", "ExactAttempts", "NoEarlyStop"]),
                          ("retry_base", ["NeverRetryBase", "ExactAttempts", "NoEarlyStop"]),
